@@ -72,6 +72,15 @@ impl Mutex {
                 execution.threads.seq_cst();
             }
 
+            // Releasing the lock is an access of the mutex as far as DPOR is
+            // concerned, even though it is not a branch point: a `try_lock` of
+            // another thread that is scheduled before the release observes the
+            // lock as held. The release belongs to the transition that started
+            // at the releasing thread's most recent branch point.
+            let path_id = execution.path.pos().saturating_sub(1);
+            let dpor_vv = execution.threads.active().dpor_vv;
+            state.set_last_access(path_id, &dpor_vv);
+
             let thread_id = execution.threads.active_id();
 
             for (id, thread) in execution.threads.iter_mut() {
